@@ -112,18 +112,22 @@ def routines(ctx, prop):
             ok = ib.seq > L1.seq and bool(second) and len(row_sel) == 1
             if ok:
                 v = row_sel[0].data["value"]
-                sfv = second[0].data["elem"]
-                curve = A.at(row_sel[0], "self._tradeoff_curve[K]", {"K": sfv})
+                it2 = second[0].data["iter"]
+                over_items = A.eq(it2, A.at(second[0], "self._tradeoff_curve.items()"))
+                # `for k in curves.keys(): curves[k]`  or  `for k, curve in curves.items(): curve`
+                sfv = mk("sub", second[0].data["elem"], const(0)) if over_items else second[0].data["elem"]
+                curve = mk("sub", second[0].data["elem"], const(1)) if over_items else A.at(row_sel[0], "self._tradeoff_curve[K]", {"K": sfv})
                 forms = [mk("sub", mk("attr", curve, "iloc"), i_best),
                          mk("sub", mk("call", mk("attr", curve, "transpose"), (), ()), i_best),
                          mk("sub", mk("attr", curve, "T"), i_best), mk("sub", mk("attr", curve, "loc"), i_best)]
-                ok = any(v is f for f in forms) and A.eq(second[0].data["iter"], A.at(second[0], "self._tradeoff_curve.keys()"))
+                ok = any(v is f for f in forms) and (over_items or A.eq(it2, A.at(second[0], "self._tradeoff_curve.keys()"))
+                                                     or A.eq(it2, A.at(second[0], "self._tradeoff_curve")))
             ctx.ob("R04.1", fq, row_sel[0].node if row_sel else None, ok, f"{kind}: one grid index, computed after the loop, "
                    "selects the interpolation row of every group", construct=f"{kind}: common index")
             # stored per-group curve
             cs = [e for e in r.events if e.kind == "store" and e.data.get("tkind") == "sub" and isinstance(e.data.get("base_node"), ast.Attribute)
                   and e.data["base_node"].attr == "_tradeoff_curve" and e.func == fq]
-            ok = len(cs) == 1 and cs[0].data["value"] is ic.data["result"]
+            ok = len(cs) == 1 and cs[0].data["value"] is ic.data["result"]   # (a temporary holding the result is the same term)
             ctx.ob("R04.1", fq, cs[0].node if cs else None, ok, f"{kind}: the stored curve of a group is its interpolated hull",
                    construct=f"{kind}: stored curve")
             # Bunch fields
@@ -136,7 +140,8 @@ def routines(ctx, prop):
                 if kind == "eo":
                     ok = ok and A.eq(k.get("prediction_constant"), A.at(bun[0], "self._x_best"))
                 ds = [e for e in r.events if e.kind == "store" and e.data.get("tkind") == "sub" and e.data["value"] is bun[0].data["result"]]
-                ok = ok and len(ds) == 1 and ds[0].data["key"] is second[0].data["elem"]
+                key_forms = (second[0].data["elem"], mk("sub", second[0].data["elem"], const(0)))   # `for k in ...` / `for k, v in ....items()`
+                ok = ok and len(ds) == 1 and any(ds[0].data["key"] is kf for kf in key_forms)
             ctx.ob("R04.1", fq, bun[0].node if bun else None, ok, f"{kind}: the rule of a group is (p0, operation0, p1, "
                    "operation1) of the selected row, stored under the group's key", construct=f"{kind}: group rule")
             xb = [e for e in stores_attr(r, "_x_best") if e.func == fq]
